@@ -44,6 +44,7 @@ pub fn run(prop: &str, leg: &str, ctx: &Ctx, rep: &mut Report) -> bool {
         ("C02", "boundary") => c02::boundary(ctx, rep),
         ("C03", "decoders") => c03::decoders(ctx, rep),
         ("C03", "verify-hostile") => c03::verify_hostile(ctx, rep),
+        ("C03", "dump-corpus") => c03::dump_corpus(ctx, rep),
         ("C04", "keys") => c04::keys(ctx, rep),
         ("C05", "roundtrip") => c05::roundtrip(ctx, rep),
         ("C06", "canonical") => c06::canonical(ctx, rep),
